@@ -196,7 +196,9 @@ type Gun struct {
 
 type closableGun struct{ *Gun }
 
-func (g closableGun) Close() error { g.Gun.Closed++; return nil }
+// Close is a scheduling point: closing a real gun (idle connections) takes time, so whoever closes
+// can be overtaken there by the goroutines that wait for the run to end.
+func (g closableGun) Close() error { vs.Yield("gun-close"); g.Gun.Closed++; return nil }
 
 type warmGun struct{ *Gun }
 
@@ -211,7 +213,7 @@ type warmClosableGun struct {
 	*Gun
 }
 
-func (g warmClosableGun) Close() error { g.Gun.Closed++; return nil }
+func (g warmClosableGun) Close() error { vs.Yield("gun-close"); g.Gun.Closed++; return nil }
 func (g warmClosableGun) WarmUp(o *warmup.Options) (any, error) {
 	return warmGun{g.Gun}.WarmUp(o)
 }
